@@ -135,6 +135,94 @@ def _call(sparse, np, x, uf, spelling, axis, keepdims, extra=None):
     raise ValueError(spelling)
 
 
+def _derive(sparse, x, dv):
+    k = dv["op"]
+    if k == "transpose":
+        return x.transpose(tuple(dv["perm"]))
+    if k == "moveaxis":
+        return sparse.moveaxis(x, dv["src"], dv["dst"])
+    if k == "reshape":
+        return x.reshape(tuple(dv["shape"]))
+    if k == "reduce":
+        y = x.sum(axis=dv["axis"], keepdims=True)
+        y.enable_caching()
+        return y
+    if k == "transpose2":      # two hops: the second transposition can hit the cache of the first result
+        return x.transpose(tuple(dv["perm"])).transpose(tuple(dv["perm2"]))
+    raise ValueError(k)
+
+
+def _derive_src(dv):
+    k = dv["op"]
+    if k == "transpose":
+        return f"x.transpose({tuple(dv['perm'])!r})"
+    if k == "moveaxis":
+        return f"sparse.moveaxis(x,{dv['src']},{dv['dst']})"
+    if k == "reshape":
+        return f"x.reshape({tuple(dv['shape'])!r})"
+    if k == "reduce":
+        return f"x.sum(axis={dv['axis']},keepdims=True)"
+    return f"x.transpose({tuple(dv['perm'])!r}).transpose({tuple(dv['perm2'])!r})"
+
+
+def derived_shape(shape, dv):
+    k = dv["op"]
+    if k == "transpose":
+        return [shape[a] for a in dv["perm"]]
+    if k == "transpose2":
+        s1 = [shape[a] for a in dv["perm"]]
+        return [s1[a] for a in dv["perm2"]]
+    if k == "moveaxis":
+        l = list(shape)
+        v = l.pop(dv["src"] % len(shape))
+        l.insert(dv["dst"] % len(shape), v)
+        return l
+    if k == "reshape":
+        return list(dv["shape"])
+    l = list(shape)
+    l[dv["axis"]] = 1
+    return l
+
+
+def derived_cases(tier, rng):
+    """operands "however produced": COO arrays with caching enabled that result from a transpose (all
+    permutations of 3 axes, 3- and 4-cycles of 4), moveaxis, reshape or a keepdims reduction, then reduced over
+    every ordered axis subset (the reduction's internal transpose/reshape goes through the cache)."""
+    cases = []
+    ufs = ["add", "maximum", "multiply", "minimum", "logical_or", "bitwise_xor"]
+    k = 0
+    recipes = []
+    for perm in itertools.permutations(range(3)):
+        if list(perm) != [0, 1, 2]:
+            recipes.append(([2, 3, 2], {"op": "transpose", "perm": list(perm)}))
+            recipes.append(([3, 2, 1], {"op": "transpose", "perm": list(perm)}))
+    for perm in ([1, 2, 3, 0], [3, 0, 1, 2], [1, 2, 0, 3], [0, 2, 3, 1], [2, 3, 0, 1], [1, 0, 3, 2]):
+        recipes.append(([2, 3, 2, 2], {"op": "transpose", "perm": perm}))
+    recipes += [([2, 3, 2], {"op": "moveaxis", "src": 0, "dst": -1}), ([2, 3, 2], {"op": "moveaxis", "src": -1, "dst": 0}),
+                ([2, 3, 2, 2], {"op": "moveaxis", "src": 1, "dst": 3}),
+                ([2, 3, 2], {"op": "reshape", "shape": [6, 2]}), ([2, 3, 2], {"op": "reshape", "shape": [2, 6]}),
+                ([2, 3, 2], {"op": "reshape", "shape": [3, 2, 2]}), ([4, 3], {"op": "reshape", "shape": [2, 2, 3]}),
+                ([2, 3, 2], {"op": "reduce", "axis": 0}), ([2, 3, 2], {"op": "reduce", "axis": 1}),
+                ([2, 3, 2], {"op": "reduce", "axis": 2}),
+                ([2, 3, 2], {"op": "transpose2", "perm": [1, 2, 0], "perm2": [1, 2, 0]}),
+                ([2, 3, 2], {"op": "transpose2", "perm": [2, 0, 1], "perm2": [1, 2, 0]})]
+    for shape, dv in recipes:
+        nd = len(derived_shape(shape, dv))
+        axs = axis_args(nd, rng, tier)
+        if nd == 4 and tier == "quick":
+            axs = rng.sample(axs, 40)
+        for axis in axs:
+            for keepdims in ((False, True) if tier != "quick" else (rng.random() < 0.5,)):
+                uf = ufs[k % len(ufs)]
+                k += 1
+                fill = rng.choice(FILLS[uf])
+                spec = vlib.gen_array_spec(rng, shape=shape, fills=(fill,), formats=("coo",), values=VALUES[uf],
+                                           density=rng.choice([0.3, 0.6, 1.0]))
+                cases.append({"spec": spec, "uf": uf, "spelling": rng.choice(SPELLINGS[uf in METHOD]), "axis": axis,
+                              "keepdims": keepdims, "stream": "derived", "derive": dv})
+    return cases
+
+
 def impl_reduce(case):
     import warnings
 
@@ -147,6 +235,12 @@ def impl_reduce(case):
     x = vlib.build_array(spec, dtype=case.get("dtype", "int64"), idx_dtype=case.get("idx_dtype"))
     axis = _axis_py(case["axis"])
     res = {}
+    dv = case.get("derive")
+    if dv:
+        # the operand is the result of an earlier operation on a cache-enabled array
+        x.enable_caching()
+        x = _derive(sparse, x, dv)
+        res["inp"] = vlib.plain(x)
     if spec["format"] == "gcxs":
         res["inp"] = vlib.plain(x)
     try:
@@ -168,7 +262,7 @@ def impl_reduce(case):
                                      "ncols": int(oc[3])}
                 except Exception as ex:  # noqa: BLE001
                     res["ip"] = {"exc": type(ex).__name__}
-    d = vlib.spec_dense(spec, dtype=case.get("dtype", "int64"))
+    d = vlib.spec_dense(spec, dtype=case.get("dtype", "int64")) if not dv else x.todense()
     try:
         nr = getattr(np, case["uf"]).reduce(d, axis=axis, keepdims=case["keepdims"])
         res["np"] = vlib.plain(nr if isinstance(nr, np.ndarray) else np.asarray(nr)[()])
@@ -654,6 +748,8 @@ def replay_line(c):
           + f"x=sparse.COO.from_numpy(d,fill_value=np.int64({sp['fill']})); ")
     if c.get("idx_dtype"):
         mk += f"x=sparse.COO(x.coords.astype('{c['idx_dtype']}'),x.data,shape=x.shape,fill_value=x.fill_value); "
+    if c.get("derive"):
+        mk += f"x.enable_caching(); x={_derive_src(c['derive'])}; d=x.todense(); "
     if fmt == "gcxs":
         ca = sp.get("caxes")
         mk += "x=sparse.GCXS.from_coo(x" + (f",compressed_axes={tuple(ca)!r}" if ca is not None and len(sp['shape']) >= 2 else "") + "); "
@@ -711,7 +807,7 @@ def campaign(build, tier, seed, report, budget=1):
         tags[k] = tags.get(k, 0) + n
 
     # ---- API level
-    cases = api_cases(tier, rng)
+    cases = api_cases(tier, rng) + derived_cases(tier, rng)
     if budget > 1:
         cases += api_cases(tier, random.Random(seed + 1))
     kc = kernel_cases(tier, rng)
@@ -763,7 +859,9 @@ def campaign(build, tier, seed, report, budget=1):
             tag("extent/zero")
         if 1 in sp["shape"]:
             tag("extent/one")
-        if c["stream"] != "malformed":
+        if c.get("derive"):
+            tag("derived/" + c["derive"]["op"])
+        if c["stream"] not in ("malformed", "derived"):
             for kname, v in group_kinds(sp, c["axis"]).items():
                 if v:
                     tag("groups/" + kname, v)
